@@ -153,6 +153,45 @@ Fixpoint r_block (b : block) : list xml :=
   | BList items => flat_map (flat_map r_block) items
   end.
 
+(* ---------------------------------------------------------------- rendering variant: the same
+   document with row-level and cell-level wrappers.  Word wraps table rows (repeating sections) and
+   cells in content controls: w:tbl/w:sdt/w:sdtContent/w:tr, w:tr/w:sdt/w:sdtContent/w:tc, or in
+   w:customXml.  The wrappers are transparent for the text, so the specification of the document is
+   unchanged.  A mask gives per position 0 = no wrapper, 1 = w:sdt, 2 = w:customXml (positions beyond
+   the mask are not wrapped); `rm` is applied to the rows of every table, `cm` to the cells of every
+   row. *)
+Definition sdt_wrap (x : xml) : xml := el W_sdt [el W_sdtPr []; el W_sdtContent [x]].
+Definition cx_wrap (x : xml) : xml := el W_customXml [x].
+Fixpoint wrap_by (m : list N) (l : list xml) : list xml :=
+  match l, m with
+  | [], _ => []
+  | x :: r, [] => x :: r
+  | x :: r, k :: m' => (if k =? 1 then sdt_wrap x else if k =? 2 then cx_wrap x else x) :: wrap_by m' r
+  end.
+
+Fixpoint r_block_w (rm cm : list N) (b : block) : list xml :=
+  match b with
+  | BPara st l => [r_para st l]
+  | BTable rows =>
+      [el W_tbl (el W_tblPr [] ::
+         wrap_by rm (map (fun row => el W_tr (wrap_by cm
+            (map (fun cell => el W_tc (el W_tcPr [] :: flat_map (r_block_w rm cm) cell)) row))) rows))]
+  | BSdt bs => [el W_sdt [el W_sdtPr []; el W_sdtContent (flat_map (r_block_w rm cm) bs)]]
+  | BList items => flat_map (flat_map (r_block_w rm cm)) items
+  end.
+
+Definition r_document_w (rm cm : list N) (d : doc) : xml :=
+  el W_document [el W_body (flat_map (r_block_w rm cm) (body d) ++ [el W_sectPr []])].
+
+Fixpoint blk_has_table (b : block) : bool :=
+  match b with
+  | BPara _ _ => false
+  | BTable _ => true
+  | BSdt bs => existsb blk_has_table bs
+  | BList items => existsb (existsb blk_has_table) items
+  end.
+Definition has_table (d : doc) : bool := existsb blk_has_table (body d).
+
 Definition r_body (d : doc) : xml := el W_body (flat_map r_block (body d) ++ [el W_sectPr []]).
 Definition r_document (d : doc) : xml := el W_document [r_body d].
 
